@@ -109,9 +109,16 @@ class BaseWorker:
                 'the connection to the compiler worker process is '
                 'unexpectedly closed')
 
-        data = await self._request(method_name, args)
-
-        status, *data = pickle.loads(data)
+        try:
+            data = await self._request(method_name, args)
+            status, *data = pickle.loads(data)
+        except BaseException:
+            # The request was cancelled, the connection was lost or the reply
+            # is unreadable: there is no telling whether the worker has
+            # applied the state that was sent along or not.
+            if sync_state is not None:
+                sync_state(uncertain=True)
+            raise
 
         self._last_used = time.monotonic()
 
@@ -238,7 +245,17 @@ class AbstractPool:
             reflection_cache=None,
             database_config=None,
             system_config=None,
+            uncertain=False,
         ):
+            if uncertain:
+                # Forget what the worker is believed to hold, so that the
+                # next call sends the complete state.
+                if dbname in worker._dbs:
+                    worker._dbs = worker._dbs.delete(dbname)
+                worker._global_schema_pickle = None
+                worker._system_config = None
+                return
+
             worker_db = worker._dbs.get(dbname)
             if worker_db is None:
                 assert user_schema_pickle is not None
@@ -1413,7 +1430,13 @@ class MultiTenantPool(FixedPool):
             reflection_cache=None,
             database_config=None,
             instance_config=None,
+            uncertain=False,
         ):
+            if uncertain:
+                # Have the client dropped and sent anew with the next call.
+                worker.invalidate(client_id)
+                return
+
             tenant_schema = worker.get_tenant_schema(client_id)
             if tenant_schema is None:
                 assert user_schema_pickle is not None
